@@ -32,11 +32,12 @@ CORE = {
         },
     },
     "C09": {
+        "race": True,
         "checked": ["binds", "out", "ev", "ret", "panic", "dupout", "dupev", "ids"],
         "assumptions": [
             "peers announce distinct device addresses and use identical entity/feature numbering",
             "a request names the requesting peer's own device address or omits it (SPINE 7.4.4); another device's address is outside the domain",
-            "requests arrive one at a time here; the interleaving of two concurrent requests is decided by the Registry schedule check",
+            "sequential histories through SpineCore; all interleavings of two (thorough: three) concurrent requests for one server feature on different connections are forced through the gate after the single-binding check (CheckThenAct)",
         ],
         "quick": {
             "mc": [{"acts": DISC + ["bind", "unbind", "entrem", "entadd", "listbinds"], "maxlen": 7},
@@ -111,9 +112,10 @@ CORE = {
         },
     },
     "C20": {
+        "race": True,
         "checked": ["ucs", "hasuc", "out", "ret", "panic", "dupout"],
         "assumptions": [
-            "operations are issued one at a time here; concurrent read-modify-write cycles are decided by the schedule check (window UseCase.beforeStore)",
+            "sequential histories through SpineCore; all interleavings of two (thorough: three) concurrent read-modify-write cycles on different entities are forced through the gate between copy and store (CheckThenAct)",
             "2 entities x 2 actors x 2 names x 2 versions x availability x 2 scenario lists",
             "every change of the registry is a data change of the node management feature and is notified to its subscribers (C08); the notification content is compared too",
         ],
